@@ -10,7 +10,8 @@ import Dashu.Model.Int.Div
     the `words.len() >= modulus.len()` test, `div_rem_in_place`, `truncate`) and `rem_repr`;
   * `integer/src/modular/mul.rs`: `mul_normalized` / `sqr_normalized` (trimmed operand lengths, the
     `n.max(na + nb)`-word product buffer, `shr_in_place`, then `div_rem_in_place` + `&product[..n]`, or
-    `cmp_same_len` + `sub_same_len_in_place`).  `mul::multiply` / `sqr::sqr` are C01's mirrored
+    `cmp_same_len` + `debug_assert_zero!(sub_same_len_in_place)` — since round 6 C02's mirrored `Div.cmpSameLen` and C01's mirrored
+    `subSameLen` on the buffer).  `mul::multiply` / `sqr::sqr` are C01's mirrored
     `addSignedMul` / `sqrBuffer` (`Dashu.Model`: schoolbook, Karatsuba, Toom-3), run on the trimmed operands.
 
   The fields of `ConstLargeDivisor` are read off the value-level ring: `normalized_divisor` = the `n`
@@ -102,7 +103,10 @@ def mulNormalizedWordsL (W : Nat) (r : Ring) (sq : Bool) (a b : Nat) : Except Pa
     else if na + nb > n then do
       let (out, _overflow) ← Div.divRemInPlace W p1 nd (Div.highestDword W nd)
       pure (val W (out.take n))                            -- &product[..n]
-    else if val W p1 ≥ val W nd then .ok (val W p1 - val W nd)   -- cmp_same_len(product, modulus).is_ge() ⇒ sub_same_len_in_place
+    else if Div.cmpSameLen p1 nd ≠ .lt then                -- cmp::cmp_same_len(product, modulus).is_ge()
+      let (p2, borrow) := subSameLen W p1 nd 0               -- debug_assert_zero!(add::sub_same_len_in_place(product, modulus))
+      if borrow ≠ 0 then .error (Div.assertErr "mul_normalized: debug_assert_zero!(sub_same_len_in_place(product, modulus))")
+      else .ok (val W p2)
     else .ok (val W p1)
 
 /-- `PreMulInv*::mul` (single / double word rings, as before) and `mul_in_place` of multi-word rings on buffers -/
